@@ -774,13 +774,24 @@ def evaluate_model(model, momenta: dict, params: dict):
     undefined = [str(a) for a in indexed if a not in amps]
     if undefined:
         raise KeyError(f"intensity refers to undefined amplitudes {undefined[:4]}")
+    from sympy.physics.quantum.spin import WignerD
+
     dummies = {a: sp.Dummy(f"A{i}", complex=True) for i, a in enumerate(indexed)}
-    rev = {d: a for a, d in dummies.items()}
+    values = {d: amps[a] for a, d in dummies.items()}
+    # every distinct Wigner function of the alignment is evaluated once (SymPy's own `doit`), the
+    # unfolded sum is then a polynomial in these values and the amplitudes
+    with np.errstate(all="ignore"):
+        for k, w in enumerate(sorted(top.atoms(WignerD), key=str)):
+            d = sp.Dummy(f"W{k}", complex=True)
+            e = w.doit()
+            fs = sorted(e.free_symbols, key=str)
+            values[d] = complex(e) if not fs else sp.lambdify(fs, e, "numpy")(*[value_of(s) for s in fs])
+            dummies[w] = d
     top = top.xreplace(dummies).doit()
     fs = sorted(top.free_symbols, key=str)
     f = sp.lambdify(fs, top, "numpy", cse=True)
     with np.errstate(all="ignore"):
-        res = f(*[amps[rev[s]] if s in rev else value_of(s) for s in fs])
+        res = f(*[values[s] if s in values else value_of(s) for s in fs])
     return np.real(res) * np.ones(n), np.imag(res) * np.ones(n)
 
 
@@ -1099,7 +1110,7 @@ class C05Property:
         if thorough:
             chosen = mixed3 + pick_rng.sample(mixed4, 2) + pick_rng.sample(general, 10)
         else:
-            chosen = pick_rng.sample(mixed3, 3)
+            chosen = pick_rng.sample(mixed3, 4)
         chosen += [n for n in sorted(forced) if n in syn_reactions and n not in chosen][:4]
         for n in chosen:
             reaction, cls, key, types, _ = syn_reactions[n]
